@@ -7,6 +7,7 @@ arithmetic fact that every seed selection gives a completion.  The real
 `completion_from_root_finding(F, "F", seed, tol)` is run for all seed vectors.
 """
 import itertools
+import zlib
 import math
 from fractions import Fraction
 
@@ -78,7 +79,13 @@ def gen_F(rng, n):
     return [float(x) for x in v], klass, bool(fam)
 
 
+DEFAULT_TOL = [False]
+
+
 def one(ctx, C, LP, Fc, klass, fam, seedv, tol):
+    DEFAULT_TOL[0] = (tol == 1e-6 and zlib.crc32(repr((Fc, seedv)).encode()) % 3 == 0)      # a third of the default-tol calls leave it to the library
+    if DEFAULT_TOL[0]:
+        ctx.count("tol:library-default")
     out = _one(ctx, C, LP, Fc, klass, fam, seedv, tol)
     if out and out[0] == "ok":
         core.poison(out[1])      # the caller owns the returned element
@@ -99,7 +106,10 @@ def _one(ctx, C, LP, Fc, klass, fam, seedv, tol):
     np.roots = roots
     try:
         with core.quiet():
-            g = C.completion_from_root_finding(np.array(Fc), coef_type="F", seed=seedv, tol=tol)
+            if DEFAULT_TOL[0]:       # the documented default (1e-6), not passed
+                g = C.completion_from_root_finding(np.array(Fc), coef_type="F", seed=seedv)
+            else:
+                g = C.completion_from_root_finding(np.array(Fc), coef_type="F", seed=seedv, tol=tol)
         out = ("ok", g)
     except C.CompletionError as e:
         out = ("CompletionError", str(e)[:50])
